@@ -48,6 +48,7 @@ pub enum Event {
     EpDel(u64),
     EpStreamDrop(u64),
     EpClosedStore(u64),
+    EpGrave(u64),
     EpFree(u64),
     EpBatchEnd,
 }
